@@ -3,6 +3,8 @@
 
 package sarama
 
+import "sync"
+
 // Verification hooks (build tag `verif`): every call site reports an event to a sink installed by the
 // verification harness. Without a sink the calls do nothing.
 
@@ -45,4 +47,22 @@ func verifEvtMsgs(kind string, msgs []*ProducerMessage, a int) {
 			s(kind, m, a, i)
 		}
 	}
+}
+
+var (
+	verifBPMu     sync.Mutex
+	verifBPSerial = map[*brokerProducer]int{}
+)
+
+// verifBP identifies a broker producer in hook events: broker id * 4096 + a serial number unique per worker
+// (several workers for one broker id can coexist after an abandon or a closing).
+func verifBP(bp *brokerProducer) int {
+	verifBPMu.Lock()
+	defer verifBPMu.Unlock()
+	n, ok := verifBPSerial[bp]
+	if !ok {
+		n = len(verifBPSerial) + 1
+		verifBPSerial[bp] = n
+	}
+	return int(bp.broker.ID())*4096 + n%4096
 }
